@@ -73,8 +73,8 @@ EXHAUSTIVE_SCOPE = (
     'ContiguousBlockAllocator(size, pos, off) for size 1..5, off in {0, size, '
     '2*size+3}: every history over {alloc(n) n=1..size-pos, free(a) for each '
     'partition address a} with all internal tie-breaks; depth by size '
-    '(pos=0): quick {1:6, 2:7, 3:6, 4:5, 5:4}, thorough {1:10, 2:9, 3:8, '
-    '4:7, 5:6}; pos=1 for size 2..5 with depth one less; free(None) and '
+    '(pos=0): quick {1:6, 2:6, 3:5, 4:5, 5:4}, thorough {1:10, 2:9, 3:8, '
+    '4:6, 5:6}; pos=1 for size 2..5 with depth one less; free(None) and '
     'oversize alloc only as end-of-history probes')
 
 MANIFEST = {
@@ -88,7 +88,8 @@ MANIFEST = {
             'allocator\'s random tie-break driven from the case; every answer '
             'is compared with a set-of-live-intervals reference (partition, '
             'no overlap, "no space" iff no free run). All histories up to '
-            'depth 6-10 for size <= 5 are enumerated with every tie-break. '
+            'depth 6-10 (quick 4-6) for size <= 5 are enumerated with every '
+            'tie-break. '
             'The same histories go through AudioBus/ControlBus/Buffer on an '
             'NRT Server for every client id with max_logins 1-4; '
             'NodeIDAllocator is checked for prefix, bounds and distinctness '
@@ -453,6 +454,8 @@ def _run_raw_once(case, draws, v, probes=False):
         s.run(case['ops'])
         if probes and not s.dead:
             s.step = len(case['ops'])
+            drv.free(None)
+            s.observe()
             runs = s.ref.runs()
             big = max([b - a for a, b in runs], default=0)
             s.alloc(big + 1)
@@ -575,8 +578,8 @@ def alloc_strategy(draw):
 
 # --- bounded exhaustive ------------------------------------------------------------
 
-DEPTH_QUICK = {1: 6, 2: 7, 3: 6, 4: 5, 5: 4}
-DEPTH_THOROUGH = {1: 10, 2: 9, 3: 8, 4: 7, 5: 6}
+DEPTH_QUICK = {1: 6, 2: 6, 3: 5, 4: 5, 5: 4}
+DEPTH_THOROUGH = {1: 10, 2: 9, 3: 8, 4: 6, 5: 6}
 
 
 def enum_cases(ctx):
